@@ -23,7 +23,8 @@ def json_value(r, t, sane=0.85):
         return r.choice([0, 1, 31, 63, 64, 65, 16, "1F", "3f", "0x10"]) if ok else r.choice([-1, "zz", 2.5, None, True, [], "", "0x", 2 ** 70, 1e3])
     if t == kgen.FLOAT:
         return r.choice([0.5, 1.5, 5, 15.5, 25.5, 3.25, "1.5", 1e1]) if ok else r.choice(["nan", "inf", "1,5", None, True, [], "", 1e308, -0.0])
-    return r.choice(["a", "hello", 'q"t', "b\\c", "", "ab", " sp ", "# default:", "éß"]) if ok else r.choice([5, None, True, 1.5, [], {"x": 1}])
+    # incl. text outside latin-1 and a lone surrogate (legal in JSON as "\ud83d": a client that cut a string inside an emoji)
+    return r.choice(["a", "hello", 'q"t', "b\\c", "", "ab", " sp ", "# default:", "éß", "\u4e2d\u6587", "caf\u00e9 \ud83d"]) if ok else r.choice([5, None, True, 1.5, [], {"x": 1}])
 
 
 def gen_requests(r, prog, n, version, hand_n=0, tool_n=0, sane=0.85, w=None):
@@ -146,6 +147,8 @@ def concretise(desc, version, sb, menu_ids):
     """Descriptor -> request line (str)."""
     if "raw" in desc:
         return desc["raw"]
+    if "rawhex" in desc:
+        return bytes.fromhex(desc["rawhex"])  # a line of bytes (not necessarily UTF-8)
     req = {}
     v = desc.get("version", version)
     if v != "absent":
